@@ -17,9 +17,11 @@ func VerifC20Builder() {
 			verifAssume(s < e)
 		}
 		for j := 0; j < i; j++ {
-			before := es[j] <= s            // j lies to the left of i (reductions happen left to right)
+			before := es[j] <= s               // j lies to the left of i
+			after := e <= ss[j]                // j lies to the right of i: disjoint nodes may be reported in any order (pending tokens,
+			                                   // inserted semicolons and error nodes are reported after nodes to their right were)
 			inside := s <= ss[j] && es[j] <= e // i contains j: containers are reported after their contents
-			verifAssume(before || inside)
+			verifAssume(before || after || inside)
 			if allowEmpty {
 				// empty nodes sitting exactly on a boundary of another node have no determined parent: keep them apart
 				verifAssume(!(ss[j] == es[j] && (ss[j] == s || ss[j] == e)) || (s == e && ss[j] != s))
@@ -52,6 +54,11 @@ func VerifC20Builder() {
 			return
 		}
 		count++
+		if count > 2*k+4 {
+			// more visits than nodes: a node is attached twice or the sibling chain is cyclic
+			verifAssert(false, "tree-is-finite")
+			return
+		}
 		idx := k
 		if n.t != tm.File {
 			idx = int(n.t) - 1
@@ -66,6 +73,9 @@ func VerifC20Builder() {
 			verifAssert(prevEnd <= c.offset, "siblings-in-source-order")
 			prevEnd = c.endoffset
 			walk(c, depth+1)
+			if count > 2*k+4 {
+				return
+			}
 		}
 	}
 	walk(tree.root, 0)
